@@ -77,6 +77,37 @@ def rows(pid, repo, res):
     bad = [c for c in callers if c not in exp]
     if bad:
         failed['I.collection_entry'] = ['collection work reachable from %s' % bad]
+    # I.collection_steps (C03): the steps that destruct / release (and the marking step) run only under the driver.  Call graph of context.rs by
+    # name: every chain of callers of sweep_one / mark_one inside context.rs must end in do_collection (private helpers in between are fine).
+    rows['I.collection_steps'] = dict(serves=['C03'], kind='inventory', fn='src/context.rs',
+                                      text='Context::sweep_one and Context::mark_one are reachable, inside src/context.rs, only from Context::do_collection (directly or through private helpers); no other file calls them')
+    fnspans = [(m.group(1), m.start()) for m in re.finditer(r'\bfn (\w+)', ctx)]
+    def enclosing(pos):
+        cur = '?'
+        for n, st in fnspans:
+            if st <= pos:
+                cur = n
+            else:
+                break
+        return cur
+    def callers_of(name):
+        return {enclosing(m.start()) for m in re.finditer(r'(?:\.|Self::|Context::)%s\(' % name, ctx)} - {name}
+    bad = []
+    for step in ('sweep_one', 'mark_one'):
+        seen, todo = set(), [step]
+        while todo:
+            f = todo.pop()
+            for c in callers_of(f):
+                if c == 'do_collection' or c in seen:
+                    continue
+                seen.add(c); todo.append(c)
+        roots = [c for c in seen if not callers_of(c)]
+        bad += ['%s is reachable from %s' % (step, r) for r in sorted(roots)]
+        for f, s_ in src.items():
+            if f != 'context.rs' and re.search(r'\.%s\(' % step, s_):
+                bad.append('%s is called from %s' % (step, f))
+    if bad:
+        failed['I.collection_steps'] = ['collection steps outside the driver: %s' % bad]
     # I.zst_no_conjuring (C19): every safe pub fn of ZstCache that returns a Gc<'gc, T> for a caller-chosen T is given a T by the caller
     z = src.get('zst_cache.rs', '')
     rows['I.zst_no_conjuring'] = dict(serves=['C19'], kind='inventory', fn='src/zst_cache.rs',
